@@ -186,18 +186,28 @@ def arith (plus : Bool) : Val → Val → Val
     | _, _ => none
   | _, _ => none
 
-/-- `RelationalExpression` on two numeric literals (other operand kinds are not modelled: error) -/
+def Term.isLiteral : Term → Bool
+  | .num .. => true
+  | .bool _ => true
+  | .str .. => true
+  | _ => false
+
+/-- `x.eq(y)` as RelationalExpression calls it: `Literal.eq` on two literals (value space),
+    otherwise `Identifier.__eq__` / "no non-Literal node equals a literal" -/
+def termEqv (a b : Term) : Bool :=
+  if a.isLiteral && b.isLiteral then litEqv a b else decide (a = b)
+
+/-- `RelationalExpression`: `=`/`!=` on any two terms, the ordering operators on two literals only
+    (anything else is a SPARQLError) -/
 def cmpE (op : CmpOp) : Val → Val → Val
-  | some (.num d1 v1 s1), some (.num d2 v2 s2) =>
-    let a := Term.num d1 v1 s1
-    let b := Term.num d2 v2 s2
-    some (.bool (match op with
-      | .gt => litGt a b
-      | .lt => litLt a b
-      | .eq => litEqv a b
-      | .ne => !litEqv a b
-      | .ge => litGt a b || litEqv a b
-      | .le => litLt a b || litEqv a b))
+  | some a, some b =>
+    match op with
+    | .eq => some (.bool (termEqv a b))
+    | .ne => some (.bool (!termEqv a b))
+    | .gt => if a.isLiteral && b.isLiteral then some (.bool (litGt a b)) else none
+    | .lt => if a.isLiteral && b.isLiteral then some (.bool (litLt a b)) else none
+    | .ge => if a.isLiteral && b.isLiteral then some (.bool (litGt a b || litEqv a b)) else none
+    | .le => if a.isLiteral && b.isLiteral then some (.bool (litLt a b || litEqv a b)) else none
   | _, _ => none
 
 /-- `_eval(expr, row)` with every error mapped to `none`; aggregate nodes have been rewritten away -/
@@ -377,6 +387,8 @@ inductive Modifier | none | distinct | reduced
 
 structure Query where
   nuser : Nat
+  /-- `GROUP BY (expr AS ?k)` conditions: `translate` puts an Extend below the Group for each, in order -/
+  groupAs : List (Nat × Expr)
   group : Option (List Nat)
   proj : List Proj
   having : Option Expr
@@ -564,7 +576,8 @@ def groupStage (q : Query) (input : List Row) : List Row × Option Expr × List 
   if q.isAggregate then
     let t := translateAggregates q
     let w := q.nuser + t.A.length
-    let m1 := aggregateJoin w q.group t.A (input.map (padRow w))
+    let m0 := q.groupAs.foldl (fun rows ga => extend ga.2 ga.1 rows) (input.map (padRow w))
+    let m1 := aggregateJoin w q.group t.A m0
     (t.aliases.foldl (fun rows al => extend (.var al.1) al.2 rows) m1, t.having, t.proj, t.order)
   else (input.map (padRow q.nuser), q.having, q.proj, q.order)
 
